@@ -830,6 +830,12 @@ func (proxy *PgProxy) ProxyDatabaseConnection(ctx context.Context, errCh chan<- 
 					errCh <- base.NewDBProxyError(err)
 					return
 				}
+			} else if err := proxy.protocolState.HandleDatabasePacket(packetHandler); err != nil {
+				// skipped packets are not forwarded, but the protocol state still has to see them:
+				// CommandComplete retires the pending query, otherwise the next statement's
+				// response would be processed as a response to this one
+				errCh <- base.NewDBProxyError(err)
+				return
 			}
 			logger.WithField("last", last).Debugln("Skipping the packet")
 		}
